@@ -31,6 +31,9 @@ def make_records(rng, alph, jsonld_safe=False, nrec=None):
             return w
         p = fresh(pfx)
         u = "http://" + fresh(uris)
+        if not out and rng.random() < 0.08 and "" not in uris:
+            uris.add("")
+            u = ""                      # a record whose URI prefix is the empty string
         ps = [fresh(pfx) for _ in range(rng.choice([0, 0, 1, 2]))]
         us = ["http://" + fresh(uris) for _ in range(rng.choice([0, 0, 1, 2]))]
         pat = rng.choice([None, None, "", "^\\d+$", "^[A-Z]\\w+\\.$", wordof(rng, alph, 1, 6)])
